@@ -8,6 +8,7 @@ import (
 	"net"
 	"net/http"
 	"net/url"
+	"path"
 	"strings"
 	"time"
 
@@ -23,12 +24,26 @@ const (
 	cInproc  = "inproc"
 	cHTTP    = "http"    // httpgrpc.NewServer behind net/http server + real http.Transport
 	cHTTPMux = "httpmux" // httpgrpc.HandleServices on an http.ServeMux
+	cHTTPPer = "httpper" // httpgrpc.HandleMethod / HandleStream, one handler per method, mounted by hand on an http.ServeMux
 	cGRPC    = "grpc"    // reference: the standard transport
 )
 
-var sutCarriers = []string{cInproc, cHTTP, cHTTPMux}
+var sutCarriers = []string{cInproc, cHTTP, cHTTPMux, cHTTPPer}
 
-func isHTTP(c string) bool { return c == cHTTP || c == cHTTPMux }
+func isHTTP(c string) bool { return c == cHTTP || c == cHTTPMux || c == cHTTPPer }
+
+// perMethodMux mounts every method of the description with the per-method API, the way an application
+// that assembles its own routes does.
+func perMethodMux(mux *http.ServeMux, base string, desc *grpc.ServiceDesc, svc interface{}, unaryInt grpc.UnaryServerInterceptor, streamInt grpc.StreamServerInterceptor, hopts ...httpgrpc.HandlerOption) {
+	for i := range desc.Methods {
+		md := desc.Methods[i]
+		mux.HandleFunc(path.Join(base, desc.ServiceName+"/"+md.MethodName), httpgrpc.HandleMethod(svc, desc.ServiceName, &md, unaryInt, hopts...))
+	}
+	for i := range desc.Streams {
+		sd := desc.Streams[i]
+		mux.HandleFunc(path.Join(base, desc.ServiceName+"/"+sd.StreamName), httpgrpc.HandleStream(svc, desc.ServiceName, &sd, streamInt, hopts...))
+	}
+}
 
 type carrierOpts struct {
 	UnaryInt  grpc.UnaryServerInterceptor
@@ -81,7 +96,7 @@ func newCarrier(name string, desc *grpc.ServiceDesc, svc interface{}, o carrierO
 		}
 		ch.RegisterService(desc, svc)
 		c.Conn = ch
-	case cHTTP, cHTTPMux:
+	case cHTTP, cHTTPMux, cHTTPPer:
 		base := o.BasePath
 		if base == "" {
 			base = "/"
@@ -101,6 +116,10 @@ func newCarrier(name string, desc *grpc.ServiceDesc, svc interface{}, o carrierO
 			s := httpgrpc.NewServer(sopts...)
 			s.RegisterService(desc, svc)
 			h = s
+		} else if name == cHTTPPer {
+			mux := http.NewServeMux()
+			perMethodMux(mux, base, desc, svc, o.UnaryInt, o.StreamInt, o.HOpts...)
+			h = mux
 		} else {
 			mux := http.NewServeMux()
 			httpgrpc.HandleServices(mux.HandleFunc, base, newHandlerMap(desc, svc), o.UnaryInt, o.StreamInt, o.HOpts...)
